@@ -338,11 +338,12 @@ Qed.
 Lemma after_first8 m1 m2 d off D (k : nat) e :
   1 <= off -> (1 <= k)%nat -> D = Z.of_nat k * off -> 8 <= D <= 8 + off ->
   lzrec m1 off d (d + 8) -> same_below m1 m2 (d + 8) -> lzrec m2 D (d + 8) e ->
-  lzrec m2 off d e.
+  lzrec m2 off d (Z.max e (d + 8)).
 Proof.
   intros Ho Hk HD HDr R1 S R2.
   destruct (Z_lt_ge_dec e (d + 8)).
   { eapply lzrec_weaken; [eapply lzrec_same_below; [exact R1 | exact S | lia] | lia | lia]. }
+  replace (Z.max e (d + 8)) with e by lia.
   replace d with ((d - off) + off) by lia.
   apply period_extend with (k := k) (hi := d + 8).
   - exact Ho.
